@@ -30,7 +30,7 @@ MECHANISMS = ["jaxley.optimize.transforms:SigmoidTransform.forward", "jaxley.opt
               "jaxley.optimize.transforms:ParamTransform.inverse"]
 MECHANISMS_REQUIRED = ["jaxley.optimize.transforms:SigmoidTransform.forward", "jaxley.optimize.transforms:ParamTransform.forward"]
 REQUIRED = {"quick": {"bounds": 3000, "monotone": 60, "roundtrip": 3000, "leafwise": 20, "jit_equiv": 30},
-            "thorough": {"bounds": 109594, "monotone": 576, "roundtrip": 107709, "leafwise": 778, "jit_equiv": 1013}}
+            "thorough": {"bounds": 109594, "monotone": 576, "roundtrip": 107466, "leafwise": 778, "jit_equiv": 1013}}
 NX = 160
 
 
